@@ -125,42 +125,44 @@ Fixpoint dec_digits (fuel : nat) (n : N) (acc : bytes) : bytes :=
   end.
 Definition dec (n : N) : bytes := dec_digits 40 n [].
 
-(* strconv.Quote is outside the model: a quoted tag is carried by its value and printed through this
-   ASCII-only approximation (the correspondence check compares syntax trees; texts only where no quoted tag occurs). *)
-Definition quote_approx (s : bytes) : bytes := bs """" ++ s ++ bs """".
+(* strconv.Quote is outside the model: the printer takes it as a parameter (the correspondence check
+   instantiates it with what the real function returned for the tags of the case). *)
+Section Print.
+  Variable quote : bytes -> bytes.
 
-Definition print_tag (t : atag) : bytes :=
-  match t with
-  | NoTag => []
-  | RawTag s => bs " `" ++ s ++ bs "`"
-  | QuotedTag s => bs " " ++ quote_approx s
-  end.
+  Definition print_tag (t : atag) : bytes :=
+    match t with
+    | NoTag => []
+    | RawTag s => bs " `" ++ s ++ bs "`"
+    | QuotedTag s => bs " " ++ quote s
+    end.
 
-Fixpoint print (a : tyast) : bytes :=
-  match a with
-  | ANamed q name args =>
-      (if is_nil q then [] else q ++ [dot]) ++ name ++
-      (match args with ANil => [] | _ => [lbrack] ++ print_args args ++ [rbrack] end)
-  | AStar t => bs "*" ++ print t
-  | AChan t => bs "chan " ++ print t
-  | AArray n t => [lbrack] ++ dec n ++ [rbrack] ++ print t
-  | ASlice t => bs "[]" ++ print t
-  | AMap k v => bs "map[" ++ print k ++ bs "]" ++ print v
-  | AStruct fs => bs "struct {" ++ print_fields fs ++ bs "}"
-  | ARaw s => s
-  end
-with print_args (l : tyasts) : bytes :=
-  match l with
-  | ANil => []
-  | ACons t ANil => print t
-  | ACons t r => print t ++ [comma] ++ print_args r
-  end
-with print_fields (fs : afields) : bytes :=
-  match fs with
-  | AFNil => []
-  | AFCons name anon t tag rest =>
-      (if anon then [] else name ++ bs " ") ++ print t ++ print_tag tag ++ [nl] ++ print_fields rest
-  end.
+  Fixpoint print (a : tyast) : bytes :=
+    match a with
+    | ANamed q name args =>
+        (if is_nil q then [] else q ++ [dot]) ++ name ++
+        (match args with ANil => [] | _ => [lbrack] ++ print_args args ++ [rbrack] end)
+    | AStar t => bs "*" ++ print t
+    | AChan t => bs "chan " ++ print t
+    | AArray n t => [lbrack] ++ dec n ++ [rbrack] ++ print t
+    | ASlice t => bs "[]" ++ print t
+    | AMap k v => bs "map[" ++ print k ++ bs "]" ++ print v
+    | AStruct fs => bs "struct {" ++ print_fields fs ++ bs "}"
+    | ARaw s => s
+    end
+  with print_args (l : tyasts) : bytes :=
+    match l with
+    | ANil => []
+    | ACons t ANil => print t
+    | ACons t r => print t ++ [comma] ++ print_args r
+    end
+  with print_fields (fs : afields) : bytes :=
+    match fs with
+    | AFNil => []
+    | AFCons name anon t tag rest =>
+        (if anon then [] else name ++ bs " ") ++ print t ++ print_tag tag ++ [nl] ++ print_fields rest
+    end.
+End Print.
 
 (* ------------------------------------------------------------------------------------------ *)
 (* type references (pkg/types/ref.go TypeRef)                                                   *)
